@@ -238,7 +238,8 @@ def powT (c : Ctx) (x y : Dec) (tape : Tape) : Option (Out × Tape) :=
       | none => none
       | some (e4, tmp, tape) =>
         let s5 := e4.step tmp (fun c => mulOp c z tmp)
-        if s5.1.failed then some ({ d := z, fl := s5.1.fl, err := s5.1.errOf }, tape) else
+        -- `d.Set(decimalNaN)`: no intermediate value (the integer power, or nothing at all when d == x) is left behind
+        if s5.1.failed then some ({ d := decNaN, fl := s5.1.fl, err := s5.1.errOf }, tape) else
         let rr := ctxRound c s5.2
         let res := res ||| rr.2 ||| cInexact
         some ({ d := { rr.1 with neg := false }, fl := res, err := goError c.traps res }, tape)
